@@ -30,7 +30,7 @@ Definition run_conn_run (a : args) : args :=
 Definition run_req_new (a : args) : args :=
   let cfg := arg a 0 in
   let B := nth 0 cfg 0 in let maxc := N.max 1 (nth 1 cfg 0) in
-  let vect := negb (nth 2 cfg 0 =? 0) in let presel := nth 3 cfg 0 in
+  let vect := negb (nth 2 cfg 0 =? 0) in let presel := nth 3 cfg 0 in let leak := negb (nth 4 cfg 0 =? 0) in
   let wire := arg a 3 in let script := arg a 4 in
   match run_schedule norm_impl maxc (new_parser B) wire [] with
   | SOk p1 true unfed out =>
@@ -53,6 +53,25 @@ Definition run_req_new (a : args) : args :=
         match run_handler maxc (length script + 2) script r0 w1 with
         | Halt o w2 => fin o w2 []
         | Ok (inl (d, c), r1) w2 =>
+          if leak && rwriteable r1 then
+            (* a StreamWriter outlives the handler: Request::close does its reading part (writeable(), set_stream(None), record_boundary())
+               and then refuses, before writing anything, with an error of kind Other (mod.rs:452-457) *)
+            match do_writeable maxc r1 w2 with
+            | Halt o w3 => fin o w3 []
+            | Ok (e, r2) w3 =>
+              if (match e with None => true | Some k => (k =? EK_Aborted) && raborted r2 end) then
+                match set_stream (rsp r2) None with
+                | SetOk p2 =>
+                  match record_boundary maxc (mkR p2 (rwriteable r2) (rlock r2) (raborted r2)) w3 with
+                  | Halt o w4 => fin o w4 []
+                  | Ok (Some k, _) w4 => fin ORet w4 [20 + k]
+                  | Ok (None, _) w4 => fin ORet w4 [20 + EK_Other]
+                  end
+                | _ => [[18446744073710440504]]
+                end
+              else fin ORet w3 [20 + match e with Some k => k | None => 0 end]
+            end
+          else
           match do_close maxc r1 d c w2 with
           | Halt o w3 => fin o w3 []
           | Ok (inl _) w3 => fin ORet w3 [10]
